@@ -35,6 +35,19 @@ def Pc.releasing : Pc → Bool
   | .resume _ | .bUnlockRet _ true | .bDec _ true | .rep _ true => true
   | _ => false
 
+theorem headObs_done (h : Option (List Nat)) : headObs h .done ↔ h = none := by simp [headObs]
+theorem headObs_cur (h : Option (List Nat)) (l : List Nat) : headObs h (.cur l) ↔ h = some l := by simp [headObs]
+theorem expOf_done (h : Option (List Nat)) : expOf h = .done ↔ h = none := by cases h <;> simp [expOf]
+theorem expOf_cur (h : Option (List Nat)) (l : List Nat) : expOf h = .cur l ↔ h = some l := by cases h <;> simp [expOf]
+theorem expOf_ne_stale (h : Option (List Nat)) : expOf h ≠ .stale := by cases h <;> simp [expOf]
+
+theorem Pc.releasing_rep (j : Nat) (b : Bool) : (Pc.rep j b).releasing = b := by cases b <;> rfl
+theorem Pc.releasing_bUnlockRet (j : Nat) (b : Bool) : (Pc.bUnlockRet j b).releasing = b := by cases b <;> rfl
+theorem Pc.releasing_bDec (j : Nat) (b : Bool) : (Pc.bDec j b).releasing = b := by cases b <;> rfl
+
+attribute [grind =] headObs_done headObs_cur expOf_done expOf_cur Pc.releasing_rep Pc.releasing_bUnlockRet Pc.releasing_bDec
+attribute [grind .] expOf_ne_stale
+
 /-- futures: `Ready()` is sound, the accounting of consumed cores -/
 structure InvA (s : State) : Prop where
   a_res : ∀ f, (s.fut f).word = .result ↔ (s.fut f).completed = true
